@@ -107,6 +107,11 @@ def run(idx, rep, tier):
             for r in [r for r in df.returns(fi.node) if r.value is not None]:
                 t = norm(te.eval_in(fi, r.value))
                 ok = t == ("fn", f"pow:{expo}", sym(a))
+                if not ok:
+                    # the same power written as a composition: inv(sqrt(A)), sqrt(inv(A)), pow(pow(A, p), q)
+                    ce = composed_exponent(t, sym(a))
+                    if ce is not None and abs(ce - expo) < 1e-12:
+                        ok = True
                 if not ok and t[0] == "fn" and not str(t[1]).startswith("pow:") and t[2] == sym(a) and isinstance(r.value, ast.Call) and r.value.args:
                     # the same function written as an element-wise map handed to apply_unary: x -> sqrt(x), x -> 1 / sqrt(x), x -> x ** e
                     e = scalar_exponent(r.value.args[0])
@@ -218,6 +223,29 @@ def branch_safety(idx, rep, rule):
     rep.decide(True if safe else False, "branch-safety", rule.role, f"raises the parts separately ({what})" + (" under a guard that keeps the arguments from wrapping" if safe else
                ": no guard restricts the parts to positive definite ones (or the exponent to integers); for parts whose spectra lie on the negative axis the product of the principal "
                "powers is not the principal power of the product (sqrt of (-A) (x) (-B) comes out as minus the principal root)"), detail="" if safe else "unguarded", locs=[rule.loc])
+
+
+def composed_exponent(t, leaf):
+    """e such that the term is leaf ** e through inv / sqrt / isqrt / pow:c only (principal powers of one operator compose
+    multiplicatively on the positive axis, which is where sqrt / isqrt are specified); None otherwise"""
+    if t == leaf:
+        return 1.0
+    if isinstance(t, tuple) and len(t) == 2 and t[0] == "inv":
+        e = composed_exponent(t[1], leaf)
+        return None if e is None else -e
+    if isinstance(t, tuple) and len(t) == 3 and t[0] == "fn":
+        name = str(t[1])
+        c = {"sqrt": 0.5, "isqrt": -0.5}.get(name)
+        if c is None and name.startswith("pow:"):
+            try:
+                c = float(name[4:])
+            except ValueError:
+                return None
+        if c is None:
+            return None
+        e = composed_exponent(t[2], leaf)
+        return None if e is None else c * e
+    return None
 
 
 def scalar_exponent(fn, var=None):
